@@ -8,6 +8,7 @@ import time
 
 ROOT = os.path.dirname(os.path.dirname(os.path.abspath(__file__)))
 sys.path.insert(0, ROOT)
+OUT = os.environ.get('VERIF_OUT', ROOT)      # evidence / replays go here (scratch runs against mutated copies)
 
 from pyvc import prop as pv   # noqa: E402
 
@@ -69,7 +70,7 @@ class Report:
             if v['key'] == key:
                 v['count'] += 1
                 return True
-        d = os.path.join(ROOT, 'replays', self.pid)
+        d = os.path.join(OUT, 'replays', self.pid)
         os.makedirs(d, exist_ok=True)
         fn = os.path.join(d, re.sub(r'[^\w.-]+', '_', key)[:60] + '_' + hashlib.sha1(text.encode()).hexdigest()[:8] + '.json')
         replay_obj = dict(replay_obj, property=self.pid, key=key, what=what)
@@ -80,7 +81,7 @@ class Report:
 
     # ---------------------------------------------------------------- proofs
     def run_proofs(self, keys, modules, hook_guards=(), schema='TREE_SCHEMA', invs='TREE_INVARIANTS'):
-        keep = os.path.join(ROOT, 'evidence', 'smt', self.pid)
+        keep = os.path.join(OUT, 'evidence', 'smt', self.pid)
         res = pv.run_proofs(keys, modules, schema, invs, hook_guards, self.tier, keep_dir=keep)
         self.proof_results += res
         return res
@@ -140,6 +141,9 @@ class Report:
             bounded_inputs_skipped=self.bounded['skipped'],
             known_findings_seen=[k['id'] for k in self.known_seen],
         )
+        for k, v in self.bounded.items():
+            if k not in ('evaluations', 'distinct', 'samples', 'rule', 'skipped', 'exhaustive'):
+                cov['bounded_' + k] = v
         if extra_cov:
             cov.update(extra_cov)
         level = self.level
@@ -148,8 +152,8 @@ class Report:
         ev = dict(property_id=self.pid, tier=self.tier, seed=self.seed, level=level, coverage=cov,
                   assumptions=self.assumptions + ['assumed contracts: ' + ', '.join(sorted(self.assumed_contracts()))],
                   wall_s=round(wall, 2), violations=len(self.violations))
-        os.makedirs(os.path.join(ROOT, 'evidence'), exist_ok=True)
-        with open(os.path.join(ROOT, 'evidence', self.pid + '.json'), 'w') as f:
+        os.makedirs(os.path.join(OUT, 'evidence'), exist_ok=True)
+        with open(os.path.join(OUT, 'evidence', self.pid + '.json'), 'w') as f:
             json.dump(ev, f, indent=1, default=str)
         for k in self.known_seen:
             print('KNOWN-FINDING: property=%s %s' % (self.pid, k['description']))
